@@ -96,6 +96,9 @@ REG.contract('C20', C, '_eval_cfg', trusted=True, params={'ir': Obj, 'cfgs': CFG
 
 # ---- eval_cfg: the wrapper evaluates THIS expression against THIS configuration (a function of its two arguments)
 REG.contract('C20', 'mesonbuild/cargo/cfg.py', 'eval_cfg', params={'raw': Str, 'cfgs': Obj},
-             ensures=["result == (fn__eval_cfg(fn_parse(fn_lexer(raw[4:-1])), cfgs) if (raw.startswith('cfg(') and raw.endswith(')')) else False)"],
+             ensures=["result == (fn__eval_cfg(fn_parse(fn_lexer(raw[4:-1])), cfgs) if raw.startswith('cfg(') else False)"],
+             # a text that opens a cfg( expression and does not close it is malformed: rejected, never read as "some other kind of
+             # target name" and evaluated to false (the statement: malformed expressions are rejected rather than mis-evaluated)
+             raises={'MesonException': "raw.startswith('cfg(') and not raw.endswith(')')"},
              opaque_fns={'lexer': ([Str], Obj), 'parse': ([Obj], Obj), '_eval_cfg': ([Obj, Obj], Bool)}, result=Bool, floor=1,
-             note='lexer / parse / _eval_cfg are uninterpreted here (their own contracts and the bounded reference cover them): the wrapper adds nothing and remembers nothing')
+             note='lexer / parse / _eval_cfg are uninterpreted here (their own contracts and the bounded reference cover them): the wrapper adds nothing and remembers nothing; a text that is no cfg( expression at all (a target triple) is false, an unclosed cfg( is an error')
